@@ -1054,6 +1054,96 @@ fn check_trait_shape(cx: &mut Ctx, ex: &Extract) {
     cx.err(format!("lost anchor: trait `{}` in {}", ex.path, ex.file));
 }
 
+/// `extract forwarder <file> <Trait>`: the blanket impl `impl<F: Fn(..) -> R, ..> Trait<..> for F` that lets a closure be used as
+/// `dyn Trait` must be a pure forwarder, every method `fn m(&self, a, b) -> R { self(a, b) }`: the preludes model a call through the
+/// trait object as one run of the closure literal's body with exactly these arguments
+fn check_forwarder(cx: &mut Ctx, ex: &Extract) {
+    let Some(file) = cx.file(&ex.file) else { return; };
+    let mut items = vec![]; all_items(&file.items, &mut items);
+    let mut seen = false;
+    for it in items {
+        if let syn::Item::Impl(im) = it {
+            if trait_head(im).as_deref() != Some(ex.path.as_str()) { continue; }
+            // the self type is one of the impl's own type parameters
+            let st = nospace(&im.self_ty.to_token_stream().to_string());
+            if !im.generics.params.iter().any(|p| matches!(p, syn::GenericParam::Type(t) if t.ident == st.as_str())) { continue; }
+            seen = true;
+            for ii in &im.items { if let syn::ImplItem::Fn(f) = ii {
+                let params: Vec<String> = f.sig.inputs.iter().filter_map(|a| if let syn::FnArg::Typed(pt) = a { Some(nospace(&pt.pat.to_token_stream().to_string())) } else { None }).collect();
+                let want = format!("{{self({})}}", params.join(","));
+                let got = nospace(&f.block.to_token_stream().to_string());
+                if got != want { cx.err(format!("adapter drift: `{}::{}` of the closure adapter in {} is `{}`, the preludes model the plain forwarder `{}`", ex.path, f.sig.ident, ex.file, got, want)); }
+            } }
+        }
+    }
+    if !seen { cx.err(format!("lost anchor: closure adapter `impl<F> {} for F` in {}", ex.path, ex.file)); }
+    else { cx.fire("FW"); }
+}
+
+/// `extract adapter <file> <Trait> props=..`: each method of the blanket closure adapter `impl<F: Fn(..) -> R> Trait for F` is emitted
+/// as a function over the closure `this: &F` and proved against the generated contract "returns what the closure returns for exactly
+/// these arguments" (vstd closure specs `requires` / `ensures`)
+fn extract_adapter(cx: &mut Ctx, em: &mut Emitter, ex: &Extract) {
+    let Some(file) = cx.file(&ex.file) else { return; };
+    em.file_ranges = cx.file_ranges.clone();
+    let mut items = vec![]; all_items(&file.items, &mut items);
+    let props = ex.opt("props").unwrap_or_else(|| "-".to_string());
+    let mut seen = false;
+    for it in items {
+        let syn::Item::Impl(im) = it else { continue; };
+        if trait_head(im).as_deref() != Some(ex.path.as_str()) { continue; }
+        let st = nospace(&im.self_ty.to_token_stream().to_string());
+        if !im.generics.params.iter().any(|p| matches!(p, syn::GenericParam::Type(t) if t.ident == st.as_str())) { continue; }
+        seen = true;
+        for ii in &im.items { let syn::ImplItem::Fn(f) = ii else { continue; };
+            let fname = format!("{}__{}", ex.path, f.sig.ident);
+            cx.cur_fn = fname.clone();
+            let mut ps: Vec<String> = vec![]; let mut tys: Vec<String> = vec![]; let mut names: Vec<String> = vec![];
+            for a in f.sig.inputs.iter() { if let syn::FnArg::Typed(pt) = a { let mut t = (*pt.ty).clone(); rewrite::map_type(&mut t, cx); let tt = tidy(&t.to_token_stream().to_string()); let n = nospace(&pt.pat.to_token_stream().to_string()); ps.push(format!("{}: {}", n, tt)); tys.push(tt); names.push(n); } }
+            let ret = match &f.sig.output { syn::ReturnType::Type(_, t) => { let mut t = (**t).clone(); rewrite::map_type(&mut t, cx); tidy(&t.to_token_stream().to_string()) } syn::ReturnType::Default => "()".to_string() };
+            // the other type parameters of the impl keep their bounds (mapped by the unit's bound rules)
+            let mut gs: Vec<String> = vec![format!("{}: Fn({}) -> {}", st, tys.join(", "), ret)];
+            let mut g2 = im.generics.clone();
+            g2.params = g2.params.into_iter().filter(|gp| !matches!(gp, syn::GenericParam::Type(t) if t.ident == st.as_str())).collect();
+            if let Some(wc) = &mut g2.where_clause { wc.predicates = wc.predicates.clone().into_iter().filter(|pr| match pr { syn::WherePredicate::Type(pt) => nospace(&pt.bounded_ty.to_token_stream().to_string()) != st, _ => true }).collect(); if wc.predicates.is_empty() { g2.where_clause = None; } }
+            let (gt, wtxt) = generics_text(&[&g2], &[], cx);
+            { let gt = gt.trim(); if gt.len() > 2 { gs.push(gt[1..gt.len() - 1].to_string()); } }
+            let mut block = f.block.clone();
+            block = syn::parse2(rename_ident(block.to_token_stream(), "self", "this")).expect("adapter block");
+            let mut binders = BTreeSet::new(); for n in &names { binders.insert(n.clone()); } binders.insert("this".into());
+            // only rule D1 / D1x applies here (log statements); the call `this(args)` stays a plain closure call
+            let _ = binders;
+            let mut kept: Vec<syn::Stmt> = vec![];
+            for st in std::mem::take(&mut block.stmts) {
+                let mac = match &st { syn::Stmt::Macro(m) if rewrite::is_dropped_macro(&m.mac) => Some(m.mac.clone()), syn::Stmt::Expr(syn::Expr::Macro(m), _) if rewrite::is_dropped_macro(&m.mac) => Some(m.mac.clone()), _ => None };
+                match mac { None => kept.push(st), Some(m) => { cx.fire("D1"); match rewrite::impure_log_args(&m) { Ok(args) => for a in args { kept.push(syn::parse_quote!(let _ = #a;)); }, Err(what) => cx.err(format!("outside dialect: {} of a dropped log statement in {} may have an effect", what, fname)) } } }
+            }
+            block.stmts = kept;
+            let drop_this = cx.dropbody.contains(&fname);
+            em.comment(&format!("// @extracted adapter `{}::{}` from {}:{} as `{}`", ex.path, f.sig.ident, ex.file, f.sig.ident.span().start().line, fname));
+            if drop_this { em.raw("#[verifier::external_body] // @dropped: this body is outside the dialect on this tree; its contract is assumed for the rest of the unit and its own obligations are undecided"); cx.dropped.push(fname.clone()); }
+            let start = em.line();
+            em.raw(&format!("pub fn {}<{}>(this: &{}{}{}) -> (r: {}){}", fname, gs.join(", "), st, if ps.is_empty() { "" } else { ", " }, ps.join(", "), ret, wtxt));
+            let tup = if names.is_empty() { "()".to_string() } else { format!("({},)", names.join(", ")) };
+            em.raw(&format!("    requires this.requires({}),", tup));
+            em.raw(&format!("    ensures this.ensures({}, r),   // @ob adapter.{}-{}-returns-what-the-closure-returns-for-exactly-these-arguments {}", tup, ex.path, f.sig.ident, props));
+            if drop_this { em.raw("{ unimplemented!() }"); } else { em.body(&block, 0, &ex.file, None, &BTreeMap::new()); }
+            em.functions.push(emit::FnInfo { name: fname.clone(), file: ex.file.clone(), src_line: f.sig.ident.span().start().line, gen_start: start, gen_end: em.line(), kind: "fn".into(), path: format!("{}::{}", ex.path, f.sig.ident), loops: 0, captured: vec![] });
+            em.raw("");
+            cx.cur_fn = String::new();
+            cx.fire("FW2");
+        }
+    }
+    if !seen { cx.err(format!("lost anchor: closure adapter `impl<F> {} for F` in {}", ex.path, ex.file)); }
+}
+fn rename_ident(ts: TokenStream, from: &str, to: &str) -> TokenStream {
+    ts.into_iter().map(|t| match t {
+        proc_macro2::TokenTree::Ident(i) if i == from => proc_macro2::TokenTree::Ident(proc_macro2::Ident::new(to, i.span())),
+        proc_macro2::TokenTree::Group(g) => { let mut ng = proc_macro2::Group::new(g.delimiter(), rename_ident(g.stream(), from, to)); ng.set_span(g.span()); proc_macro2::TokenTree::Group(ng) }
+        other => other,
+    }).collect()
+}
+
 fn main() {
     let args: Vec<String> = std::env::args().collect();
     let mut unit_path = None; let mut repo = PathBuf::from("/repo"); let mut out = None; let mut map = None; let mut probe = false; let mut root = PathBuf::from("."); let mut dropbody: BTreeSet<String> = BTreeSet::new();
@@ -1097,6 +1187,8 @@ fn main() {
             "traitimpl" => extract_traitimpl(&mut cx, &mut specs, &mut em, &ex),
             "struct" | "alias" | "enum" => extract_struct(&mut cx, &mut specs, &mut em, &ex),
             "traitshape" => check_trait_shape(&mut cx, &ex),
+            "forwarder" => check_forwarder(&mut cx, &ex),
+            "adapter" => extract_adapter(&mut cx, &mut em, &ex),
             other => cx.err(format!("unit file: unknown extract kind {}", other)),
         }
     }
